@@ -14,12 +14,14 @@ import (
 	"strings"
 	"sync"
 	"testing"
+	"time"
 
 	"github.com/klauspost/compress/zstd"
 	"github.com/restic/chunker"
 	"github.com/restic/restic/internal/backend"
 	"github.com/restic/restic/internal/backend/cache"
 	"github.com/restic/restic/internal/backend/mem"
+	"github.com/restic/restic/internal/backend/retry"
 	"github.com/restic/restic/internal/repository/crypto"
 	"github.com/restic/restic/internal/repository/pack"
 	"github.com/restic/restic/internal/restic"
@@ -47,9 +49,16 @@ import (
 // LoadRaw, LoadUnpacked and listPack the result must be an error or exactly the content
 // that belongs to the requested ID (hash for blobs and raw files, model plaintext for
 // unpacked files, true header for listPack); LoadRaw's documented (buf, ErrInvalidData)
-// pair counts as error. Positive direction: an unharmed target must load; LoadRaw and
-// LoadUnpacked must also succeed when only the first answer is bad (documented single
-// retry).
+// pair counts as error. Further answers model interrupted transfers: "partial-error"
+// delivers the first k bytes (0, 1, inside, len-1) of the requested range and then a read
+// error; "double-partial" and "double-full" are Loads in which the backend itself invokes
+// the consumer twice (interrupted first, complete second; or complete twice - the Load
+// contract allows repeated invocation). In half of the cases the reader sits on the
+// production stack fault layer -> retry.Backend -> (cache ->) Repository, so that read
+// errors lead to a re-invocation of the consumer inside one Load. Positive direction: an
+// unharmed target must load; when the answers are n bad ones followed by good ones and a
+// good one was reached, the read must succeed if n <= 1 (every API retries once) or if all
+// bad answers are errors absorbed by the retry layer.
 
 func prfC02(seed uint64, n int) []byte {
 	b := make([]byte, n)
@@ -61,6 +70,7 @@ func prfC02(seed uint64, n int) []byte {
 }
 
 func initC02(t *testing.T) {
+	retry.TestFastRetries(t)
 	TestUseLowSecurityKDFParameters(t)
 	restic.TestDisableCheckPolynomial(t)
 }
@@ -373,7 +383,8 @@ func TestVerifC02SaveAddress(t *testing.T) {
 // ---------------------------------------------------------------- read side
 
 type vBehC02 struct {
-	kind  string // good flip truncate extend stale empty error
+	kind  string // good flip truncate extend stale empty error partial-error double-partial double-full
+	kmode int    // partial answers: 0 -> 0 bytes, 1 -> 1 byte, 2 -> inside (pos), 3 -> all but one
 	pos   uint64
 	bit   int
 	k     int
@@ -393,6 +404,45 @@ type vFaultBeC02 struct {
 }
 
 var errFaultC02 = errors.New("injected backend failure")
+var errTooShortC02 = errors.New("access beyond end of file")
+
+func goodKindC02(k string) bool { return k == "good" || k == "double-partial" || k == "double-full" }
+func errKindC02(k string) bool  { return k == "error" || k == "partial-error" }
+
+// IsPermanentError: like real backends a request beyond the end of the file is permanent,
+// injected transfer errors are not (the retry layer repeats them).
+func (b *vFaultBeC02) IsPermanentError(err error) bool {
+	return errors.Is(err, errTooShortC02) || b.Backend.IsPermanentError(err)
+}
+
+type vPartialReaderC02 struct {
+	data []byte
+	err  error
+}
+
+func (r *vPartialReaderC02) Read(p []byte) (int, error) {
+	if len(r.data) == 0 {
+		return 0, r.err
+	}
+	n := copy(p, r.data)
+	r.data = r.data[n:]
+	return n, nil
+}
+
+func partialLenC02(beh vBehC02, n int) int {
+	if n == 0 {
+		return 0
+	}
+	switch beh.kmode {
+	case 0:
+		return 0
+	case 1:
+		return min(1, n-1)
+	case 3:
+		return n - 1
+	}
+	return int(beh.pos % uint64(n))
+}
 
 func (b *vFaultBeC02) view(beh vBehC02) []byte {
 	t := b.truth
@@ -443,9 +493,31 @@ func (b *vFaultBeC02) Load(ctx context.Context, h backend.Handle, length int, of
 		if b.shortData && int(offset) <= len(data) {
 			return fn(bytes.NewReader(data[offset:]))
 		}
-		return errors.New("access beyond end of file")
+		return errTooShortC02
 	}
-	return fn(bytes.NewReader(data[offset:end]))
+	rng := data[offset:end]
+	switch beh.kind {
+	case "partial-error":
+		err := fn(&vPartialReaderC02{data: rng[:partialLenC02(beh, len(rng))], err: errFaultC02})
+		if err == nil {
+			// the consumer swallowed the read error; a real backend would report its own failure
+			return errFaultC02
+		}
+		return err
+	case "double-partial":
+		// the backend re-runs the transfer itself after an interruption
+		if err := fn(&vPartialReaderC02{data: rng[:partialLenC02(beh, len(rng))], err: errFaultC02}); err == nil {
+			return nil
+		}
+		return fn(bytes.NewReader(rng))
+	case "double-full":
+		// "fn may be called multiple times during the same Load invocation"
+		if err := fn(bytes.NewReader(rng)); err != nil {
+			return err
+		}
+		return fn(bytes.NewReader(rng))
+	}
+	return fn(bytes.NewReader(rng))
 }
 
 func (b *vFaultBeC02) Unwrap() backend.Backend { return b.Backend }
@@ -621,9 +693,13 @@ func TestVerifC02ReadFaults(t *testing.T) {
 			}
 		}
 		genBeh := func(label string) vBehC02 {
-			kinds := []string{"good", "flip", "flip", "truncate", "extend", "stale", "stale", "stale", "empty", "error"}
+			kinds := []string{"good", "flip", "flip", "truncate", "extend", "stale", "stale", "stale", "empty", "error",
+				"partial-error", "partial-error", "partial-error", "double-partial", "double-full"}
 			b := vBehC02{kind: rapid.SampledFrom(kinds).Draw(t, label)}
 			switch b.kind {
+			case "partial-error", "double-partial":
+				b.kmode = rapid.IntRange(0, 3).Draw(t, "kmode")
+				b.pos = rapid.Uint64().Draw(t, "ppos")
 			case "flip":
 				b.pos = rapid.Uint64().Draw(t, "pos") % uint64(max(1, len(truth)))
 				b.bit = rapid.IntRange(0, 7).Draw(t, "bit")
@@ -648,32 +724,52 @@ func TestVerifC02ReadFaults(t *testing.T) {
 			return b
 		}
 		nseq := rapid.IntRange(0, 3).Draw(t, "nseq")
-		for i := 0; i < nseq; i++ {
-			fbe.seq = append(fbe.seq, genBeh("beh"))
-		}
-		if rapid.Bool().Draw(t, "tailgood") {
+		if rapid.IntRange(0, 3).Draw(t, "interrupted") == 0 {
+			// interrupted transfers only: 1-3 partial answers, then a good attempt
+			nseq = rapid.IntRange(1, 3).Draw(t, "ninterrupted")
+			for i := 0; i < nseq; i++ {
+				fbe.seq = append(fbe.seq, vBehC02{kind: "partial-error", kmode: rapid.IntRange(0, 3).Draw(t, "kmode"), pos: rapid.Uint64().Draw(t, "ppos")})
+			}
 			fbe.tail = vBehC02{kind: "good"}
 		} else {
-			fbe.tail = genBeh("tail")
+			for i := 0; i < nseq; i++ {
+				fbe.seq = append(fbe.seq, genBeh("beh"))
+			}
+			if rapid.Bool().Draw(t, "tailgood") {
+				fbe.tail = vBehC02{kind: "good"}
+			} else {
+				fbe.tail = genBeh("tail")
+			}
 		}
 		fbe.shortData = rapid.Bool().Draw(t, "shortData")
 		fbe.target = target
 		fbe.truth = truth
-		anyBad := fbe.tail.kind != "good"
-		firstBadOnly := len(fbe.seq) >= 1 && fbe.seq[0].kind != "good" && fbe.tail.kind == "good"
+		// shape "n bad answers, then only good ones"
+		nBad := 0
+		for nBad < len(fbe.seq) && !goodKindC02(fbe.seq[nBad].kind) {
+			nBad++
+		}
+		badPrefixThenGood := goodKindC02(fbe.tail.kind)
+		badsAreErrors := true
 		for i, b := range fbe.seq {
-			if b.kind != "good" {
-				anyBad = true
-				if i > 0 {
-					firstBadOnly = false
-				}
+			if i >= nBad && !goodKindC02(b.kind) {
+				badPrefixThenGood = false
+			}
+			if i < nBad && !errKindC02(b.kind) {
+				badsAreErrors = false
 			}
 		}
 
 		// ---- reader: a fresh repository object, optionally with a cache ----
 		useCache := rapid.Bool().Draw(t, "cache")
 		warm := useCache && rapid.IntRange(0, 3).Draw(t, "warm") == 0
-		rd, err := New(fbe, Options{})
+		// production order: fault layer (the storage) -> retry -> (cache ->) repository
+		useRetry := rapid.Bool().Draw(t, "retryLayer")
+		var stack backend.Backend = fbe
+		if useRetry {
+			stack = retry.New(fbe, 30*time.Millisecond, nil, nil)
+		}
+		rd, err := New(stack, Options{})
 		if err != nil {
 			t.Fatalf("New: %v", err)
 		}
@@ -791,13 +887,30 @@ func TestVerifC02ReadFaults(t *testing.T) {
 		if calls > len(fbe.seq) {
 			kinds[fbe.tail.kind] = true
 		}
-		classes := []string{"read:op=" + op, fmt.Sprintf("read:cache=%v", useCache), "read:target=" + target.Type.String()}
+		classes := []string{"read:op=" + op, fmt.Sprintf("read:cache=%v", useCache), "read:target=" + target.Type.String(), fmt.Sprintf("read:retry-layer=%v", useRetry)}
 		nontriv := false
 		for k := range kinds {
 			classes = append(classes, "read:fault="+k)
 			if k != "good" {
 				nontriv = true
 			}
+			if k == "partial-error" || k == "double-partial" || k == "double-full" {
+				if op == "LoadRaw" || op == "LoadUnpacked" {
+					classes = append(classes, "read:"+k+"-on-whole-file-load")
+				} else {
+					classes = append(classes, "read:"+k+"-on-ranged-load")
+				}
+			}
+		}
+		reachedGood := badPrefixThenGood && calls > nBad
+		if useRetry && nBad >= 1 && badsAreErrors && reachedGood {
+			classes = append(classes, "read:retried-to-good-inside-one-load")
+			if nBad >= 2 {
+				classes = append(classes, "read:several-interruptions-then-good")
+			}
+		}
+		if useRetry && nBad >= 1 && badsAreErrors && badPrefixThenGood && !reachedGood && consumedBadC02(kinds) {
+			classes = append(classes, "read:retry-budget-exhausted")
 		}
 		if twin {
 			classes = append(classes, "read:twin-available")
@@ -819,9 +932,9 @@ func TestVerifC02ReadFaults(t *testing.T) {
 		key := ""
 		if nontriv {
 			var sb strings.Builder
-			fmt.Fprintf(&sb, "read|%d|%v|%s|%s|%v|%v|%v|", version, comp, op, target.Type, useCache, warm, fbe.shortData)
+			fmt.Fprintf(&sb, "read|%d|%v|%s|%s|%v|%v|%v|%v|", version, comp, op, target.Type, useCache, warm, fbe.shortData, useRetry)
 			for _, b := range append(append([]vBehC02{}, fbe.seq...), fbe.tail) {
-				fmt.Fprintf(&sb, "%s:%d:%d:%d:%d,", b.kind, b.pos, b.bit, b.k, len(b.stale))
+				fmt.Fprintf(&sb, "%s:%d:%d:%d:%d:%d,", b.kind, b.pos, b.bit, b.k, len(b.stale), b.kmode)
 			}
 			fmt.Fprintf(&sb, "%v|%x", sizes, sha256.Sum256(truth))
 			key = sb.String()
@@ -832,7 +945,7 @@ func TestVerifC02ReadFaults(t *testing.T) {
 			for _, b := range fbe.seq {
 				seq = append(seq, b.kind)
 			}
-			st.Sample(map[string]any{"part": "read", "op": op, "target": target.Type.String(), "answers": seq, "then": fbe.tail.kind, "cache": useCache, "warm_cache": warm,
+			st.Sample(map[string]any{"part": "read", "op": op, "target": target.Type.String(), "answers": seq, "then": fbe.tail.kind, "cache": useCache, "warm_cache": warm, "retry_layer": useRetry,
 				"backend_loads_of_target": calls, "failed": failed})
 		}
 
@@ -843,24 +956,27 @@ func TestVerifC02ReadFaults(t *testing.T) {
 		if violation != "" {
 			t.Fatalf("%s (answers %v then %s, cache %v)", violation, kindsC02(fbe.seq), fbe.tail.kind, useCache)
 		}
-		consumedBad := false
-		for k := range kinds {
-			if k != "good" {
-				consumedBad = true
-			}
+		if failed && !consumedBadC02(kinds) {
+			t.Fatalf("%s on %v failed although every answer of the backend (%d loads of the target, kinds %v) was correct", op, target, calls, kinds)
 		}
-		if failed && !consumedBad {
-			t.Fatalf("%s on %v failed although every answer of the backend (%d loads of the target) was correct", op, target, calls)
-		}
-		_ = anyBad
 		autoCached := target.Type == backend.SnapshotFile || target.Type == backend.IndexFile || (tpack != nil && tpack.tpe == restic.TreeBlob)
 		if failed && warm && autoCached && calls == 0 {
 			t.Fatalf("%s on %v failed although a verified copy was in the cache and the backend was not asked", op, target)
 		}
-		if failed && firstBadOnly && (op == "LoadRaw" || op == "LoadUnpacked") {
-			t.Fatalf("%s on %v failed although only the first answer (%s) was bad; backend loads: %d", op, target, fbe.seq[0].kind, calls)
+		if failed && reachedGood && (nBad <= 1 || (useRetry && badsAreErrors)) {
+			t.Fatalf("%s on %v failed although the backend answered correctly after %d bad answer(s) %v (retry layer %v, cache %v, backend loads of the target: %d)",
+				op, target, nBad, kindsC02(fbe.seq[:nBad]), useRetry, useCache, calls)
 		}
 	})
+}
+
+func consumedBadC02(kinds map[string]bool) bool {
+	for k := range kinds {
+		if !goodKindC02(k) {
+			return true
+		}
+	}
+	return false
 }
 
 func kindsC02(seq []vBehC02) []string {
